@@ -71,7 +71,7 @@ var (
 
 func genC25(t *rapid.T) c25Case {
 	var c c25Case
-	n := rapid.IntRange(3, 26).Draw(t, "n")
+	n := rapid.IntRange(4, 28).Draw(t, "n")
 	streams := 0
 	for i := 0; i < n; i++ {
 		var op c25Op
@@ -327,6 +327,12 @@ func (s *c25Sess) handle(v wireVal) bool {
 				okResp := q.resps[from][pl]
 				knownResp := q.resps[from] != nil
 				q.mu.Unlock()
+				if from == "" && vkit.IsKnown("C25", "bogus-record-after-close") {
+					// listed known finding: count it, drop the record, judge the rest
+					s.x.Excluded()
+					q.recs = q.recs[:len(q.recs)-1]
+					return true
+				}
 				if from == "" {
 					s.x.Violationf("bogus-record-after-close", "query Seq %d (timeout %v): %s record with empty From — no responder sent it (trace: %s)", h.Seq, q.timeout, typ, s.trace())
 					return false
